@@ -3,6 +3,7 @@ import SJ.Drv.MachAp
 import SJ.Drv.MachRv
 import SJ.Spec.Canon
 import SJ.Spec.Pos
+import SJ.Spec.PosDepth
 import SJ.Spec.Range
 namespace SJ.Drv.C01
 open SJ SJ.Drv SJ.Drv.Mach SJ.Model.Machine
@@ -44,6 +45,20 @@ def isSideMsg (hexMsg : String) : Bool := sideConditionMsgs.any fun c => hexOfBy
 def idxOfLineCol (bs : Bytes) (l c : Nat) : List Nat :=
   (List.range (bs.length + 1)).filter fun k => lineCol bs k == (l, c)
 
+def isDepthMsg (hexMsg : String) : Bool := hexOfBytes (Gen.message .RecursionLimitExceeded) == hexMsg
+
+/-- C11, nesting-limit clause ("a nesting-limit error at the 128th opening bracket"): a `recursion limit exceeded` syntax
+    error reported at `l:c` must sit exactly at `lineCol bs (i + 1)`, `i` the index of the opening bracket (`[` or `{`
+    outside string literals) that raises the nesting depth to 128 - found by the lexical scan `Spec.Pos.depthOpener`,
+    independently of the parser model -/
+def judgeDepthPos (srcName : String) (bs : Bytes) (l c : Nat) : Option String :=
+  match Spec.Pos.depthOpener 128 bs with
+  | some i =>
+    let (el, ec) := lineCol bs (i + 1)
+    if (el, ec) == (l, c) then none
+    else some s!"C11 {srcName}: nesting-limit error reported at {l}:{c}, but the 128th opening bracket (byte {i}) is at {el}:{ec}"
+  | none => some s!"C11 {srcName}: nesting-limit error reported at {l}:{c}, but no opening bracket raises the nesting depth to 128"
+
 /-- C11 on one source's outcome -/
 def judgePos (srcName : String) (bs : Bytes) (o : String) : Option String :=
   match o.splitOn ":" with
@@ -55,6 +70,7 @@ def judgePos (srcName : String) (bs : Bytes) (o : String) : Option String :=
       else if cat == "eof" then
         if lineCol bs bs.length == (l, c) then none
         else some s!"C11 {srcName}: Eof error at {l}:{c}, not at the end of input"
+      else if isDepthMsg msg && cat == "syntax" then judgeDepthPos srcName bs l c
       else if isSideMsg msg then none
       else
         match Spec.Pos.verdict bs with
